@@ -338,25 +338,28 @@ theorem bindAll_quiet (cid : Nat) (a : App) (blocked : List Nat) : ∀ (l : List
 theorem closeApp_quiet (cid n : Nat) (s : State) : Quiet s (closeApp cid n s) :=
   ⟨⟨[], by simp [closeApp], by simp⟩, rfl⟩
 
+theorem quiet_evA (s : State) (es : List Ev) : Quiet s (evA s es) :=
+  ⟨⟨[], by simp [evA], by simp⟩, rfl⟩
+
 theorem startApp_quiet (cid : Nat) (blocked : List Nat) (a : App) (s : State) :
     Quiet s (startApp cid blocked a s).1 := by
   unfold startApp
   split
   · exact bindAll_quiet _ _ _ _ _
   · split
-    · exact quiet_ev _ _ (by simp [evInst])
-    · have h := (quiet_ev s [.start cid a.name] (by simp [evInst])).trans
-        (bindAll_quiet cid a blocked a.listen (ev s [.start cid a.name]))
-      generalize bindAll cid a blocked a.listen (ev s [.start cid a.name]) = r at h
+    · exact quiet_evA _ _
+    · have h := (quiet_evA s [.start cid a.name]).trans
+        (bindAll_quiet cid a blocked a.listen (evA s [.start cid a.name]))
+      generalize bindAll cid a blocked a.listen (evA s [.start cid a.name]) = r at h
       obtain ⟨s', b⟩ := r
       cases b with
-      | true => exact h.trans (quiet_ev _ _ (by simp [evInst]))
-      | false => exact (h.trans (closeApp_quiet _ _ _)).trans (quiet_ev _ _ (by simp [evInst]))
+      | true => exact h.trans (quiet_evA _ _)
+      | false => exact (h.trans (closeApp_quiet _ _ _)).trans (quiet_evA _ _)
 
 theorem stopApp_quiet (cid : Nat) (a : App) (s : State) : Quiet s (stopApp cid a s) := by
   unfold stopApp; split
   · exact closeApp_quiet _ _ _
-  · exact (closeApp_quiet _ _ _).trans (quiet_ev _ _ (by simp [evInst]))
+  · exact (closeApp_quiet _ _ _).trans (quiet_evA _ _)
 
 theorem stopApps_quiet (cid : Nat) : ∀ (as : List App) (s : State), Quiet s (stopApps cid as s)
   | [], s => Quiet.rfl' s
